@@ -276,6 +276,7 @@ def o3_bit_errors(ctx, L, double):
     m = fb()
     clock = fresh_env(ctx, urandom=lambda n: bytes(n))
     radio, rx = make_ble(ctx, clock)
+    radio.MAX_XFERS = 10 ** 8  # one long concrete enumeration on a single path: the per-path transaction budget does not apply
     body = [(7 * i + 3) & 0xFF for i in range(L)]
     head = [0x42, L] + body
     pkt = head + list(m.crc24_ble(bytes(head)))
